@@ -1,4 +1,5 @@
 from __future__ import annotations
+import copy
 import typing as t
 from collections.abc import KeysView
 from abc import ABCMeta, abstractmethod
@@ -89,13 +90,15 @@ class BaseKey(t.Generic[NativePrivateKey, NativePublicKey], metaclass=ABCMeta):
             parameters: t.Optional[KeyParameters] = None):
         self._raw_value = raw_value
         self.original_value = original_value
-        self.extra_parameters = parameters
+        # the key keeps copies: the dicts handed over (and the lists in them)
+        # remain the caller's, to be changed or used for the next key
+        self.extra_parameters = copy.deepcopy(parameters)
         self._dict_value: DictKey = {}
         if isinstance(original_value, dict):
             if parameters is not None:
-                data = {**original_value, **parameters, "kty": self.key_type}
+                data = copy.deepcopy({**original_value, **parameters, "kty": self.key_type})
             else:
-                data = {**original_value, "kty": self.key_type}
+                data = copy.deepcopy({**original_value, "kty": self.key_type})
             self.validate_dict_key(data)
             self._dict_value = data
 
@@ -177,6 +180,10 @@ class BaseKey(t.Generic[NativePrivateKey, NativePublicKey], metaclass=ABCMeta):
             raise ValueError("This key is not a private key.")
 
         data = self.dict_value.copy()
+        # "key_ops", "x5c" ... are lists: what is handed out is not the key's own
+        for k, v in data.items():
+            if isinstance(v, (list, dict)):
+                data[k] = copy.deepcopy(v)  # type: ignore[literal-required]
         if private is not False:
             data.update(params)
             return data
